@@ -409,9 +409,18 @@ def run(tier, seed):
         c, line, e, g = resT['mismatches'][0]
         broken.append('correspondence op `tree` diverges on %d histories; first %r\n impl=%s\n model=%s' % (
             resT['n_mismatch'], c[1], e[-300:], g[-300:]))
+    from . import c18own
+    ocases = c18own.own_cases(tier, seed)
+    resO = corr.run('c18o', ocases, c18own.own_line, c18own.own_py, c18own.own_oracle, chunk=25)
+    if resO['n_mismatch']:
+        c, line, e, g = resO['mismatches'][0]
+        broken.append('correspondence op `own` diverges on %d histories; first %s\n impl=%s\n model=%s' % (
+            resO['n_mismatch'], line[:300], e[-300:], g[-300:]))
+    for case, why in resO['oracle_fail'][:4]:
+        findings.add('owners', repr(case), why)
     coverage = {
-        'evaluations': sum(len(c[1]) + 1 for c in cases) + sum(len(c[1]) for c in tcases),
-        'distinct_nontrivial': len(set(cases)) + len(set(tcases)),
+        'evaluations': sum(len(c[1]) + 1 for c in cases) + sum(len(c[1]) for c in tcases) + sum(c[1] for c in ocases),
+        'distinct_nontrivial': len(set(cases)) + len(set(tcases)) + len(set(ocases)),
         'rule': 'graph walk: sheets from the grammar G (150 / 3000 per run) and 2 fixed sheets with every rule kind (@media nested three deep with @page inside, @page with a margin '
                 'rule, @font-face, @import with a fetched sheet, unknown rule, comment, namespaced selectors, multi-valued '
                 'properties) x every one of 18 operations at 18 positions alone, then random histories (insertRule text / '
@@ -419,15 +428,21 @@ def run(tier, seed):
                 'selectorText / selectorList / mediaText / media / cssText assignments as text and as objects, setProperty, '
                 'appendSelector, appendMedium); after EVERY operation every link of every reachable object is compared '
                 'with containment and every deleted rule must report no parent; `tree`: well-formed insert / delete '
-                'histories over 3 containers and 3 style rules against the model',
-        'traces_validated_against_impl': resT['n'],
+                'histories over 3 containers and 3 style rules against the model; `own`: histories of 12-41 text and object '
+                'assignments on declaration blocks, properties, values, selector lists, selectors and media lists of style / '
+                '@font-face / @media rules (a third of them without object adoption: there every rule must stay consistent), '
+                'owner of every reachable sub-object compared with the model after every operation',
+        'traces_validated_against_impl': resT['n'] + resO['n'],
         'exhaustive': False,
-        'distribution': {'graph_histories': len(cases), 'tree_histories': len(tcases)},
+        'distribution': {'graph_histories': len(cases), 'tree_histories': len(tcases), 'owner_histories': len(ocases)},
         'samples': [repr(cases[i]) for i in (1, len(cases) // 2, len(cases) - 1)],
-        'correspondence_mismatches': resT['n_mismatch'],
-        'oracle_failures': res['n_oracle_fail'],
+        'correspondence_mismatches': resT['n_mismatch'] + resO['n_mismatch'],
+        'oracle_failures': res['n_oracle_fail'] + resO['n_oracle_fail'],
     }
-    assumptions = ['the model keeps the rule tree only; links of selector lists, selectors, media lists, declarations, '
-                   'properties, values and imported sheets are checked on the implementation',
+    assumptions = ['two models: the rule tree (Links) and the sub-objects of a rule (Owners: block, properties, values, selector '
+                   'list, selectors, media list); links of imported sheets and of margin rules inside @page are checked on the '
+                   'implementation only; adopting an object that another reachable container still lists is outside the '
+                   'theorem (hypothesis Adopt, kernel-checked counterexamples) - the real code then leaves the old owner '
+                   'with a child naming the new owner',
                    'a rule object is inserted only while it is not contained elsewhere']
     return lib.finish(PROP, tier, seed, t0, build, findings, coverage, assumptions, broken)
